@@ -14,18 +14,11 @@ Definition upper_hexcolon (c : ascii) : bool :=
   let n := nat_of_ascii c in
   ((48 <=? n) && (n <=? 57)) || ((65 <=? n) && (n <=? 70)) || (n =? 58).
 
-(* what CellString returns for a cell loaded from this field, according to the real caster/formatter *)
-Definition observed_cell_string (f : fld) : string :=
-  match f_tag f with TText => f_s f | TBool _ => EmptyString | TNum _ => f_fmt f end.
-
 Definition check_gcase (f : fld) : bool :=
   go_cast_agrees f && go_fmt_agrees f
   (* every string over [0-9A-F:] is inside the modelled domain of go_cast *)
   && (if forallb upper_hexcolon (chars (f_s f))
-      then match go_cast (f_s f) with Some _ => true | None => false end else true)
-  (* and where the model says what CellString gives back, it is right *)
-  && match rendered (f_s f) with Some r => String.eqb r (observed_cell_string f) | None => true end
-  && (if cast_stable (f_s f) then String.eqb (observed_cell_string f) (f_s f) else true).
+      then match go_cast (f_s f) with Some _ => true | None => false end else true).
 
 Fixpoint gmismatches_from (i : nat) (cs : list fld) : list nat :=
   match cs with
@@ -34,7 +27,6 @@ Fixpoint gmismatches_from (i : nat) (cs : list fld) : list nat :=
   end.
 Definition gmismatches := gmismatches_from 0.
 
-Definition count_stable (cs : list fld) : nat := List.length (filter (fun f => cast_stable (f_s f)) cs).
 Definition count_modelled (cs : list fld) : nat :=
   List.length (filter (fun f => match go_cast (f_s f) with Some _ => true | None => false end) cs).
 
@@ -44,6 +36,7 @@ Inductive pobs := P400 | PTrue | PFalse | PNone | PPanic | POther.
 Inductive postobs := Post200 | Post400 | PostPanic | PostOther.
 
 Record e2e := mkE {
+  e_pre : list (list (list fld) * list string);   (* history: summaries posted before, with the labels fetched after each *)
   e_recs : option (list (list fld));
   e_text : string;
   e_asis : list (string * num);
@@ -91,23 +84,40 @@ Definition pobs_eqb (r : res (option (option bool))) (o : pobs) : bool :=
   | _, _ => false
   end.
 
+Fixpoint run_labels (fmt : num -> string) (st : state) (ls : list string) : state :=
+  match ls with
+  | [] => st
+  | l :: ls' => match get_solution fmt st l with Ok (_, st') => run_labels fmt st' ls' | Panic => run_labels fmt st ls' end
+  end.
+
+Fixpoint run_history (cast : caster) (fmt : num -> string) (asis : list (string * num)) (st : state)
+         (h : list (list (list fld) * list string)) : state :=
+  match h with
+  | [] => st
+  | (recs, ls) :: h' =>
+    let st1 := match post_solutions cast fmt asis st (CsvRecords (map (map f_s) recs)) with
+               | Ok (_, s1) => s1 | Panic => st end in
+    run_history cast fmt asis (run_labels fmt st1 ls) h'
+  end.
+
 Definition check_e2e (c : e2e) : bool :=
   match e_recs c with
   | None => true                                   (* not one record per row: outside the model, reported by the oracle *)
   | Some recs =>
-    let fs := List.concat recs in
+    let fs := List.concat recs ++ List.concat (List.concat (map fst (e_pre c))) in
     let cast := cast_of fs in
     let fmt := fmt_of fs in
     let strs := map (map f_s) recs in
     let hdr := hd [] strs in
     let names := firstn (List.length hdr - 3) (tl hdr) in
     let rows := map srow_of (tl strs) in
+    let st0 := run_history cast fmt (e_asis c) fresh (e_pre c) in
     forallb (fun f => tag_eqb (cast (f_s f)) (f_tag f)) fs
     && forallb go_cast_agrees fs && forallb go_fmt_agrees fs
     (* the marshaller model writes the same text / the same records *)
     && String.eqb (marshal_text names rows) (e_text c)
     && list_eqb (list_eqb String.eqb) (marshal_records names rows) strs
-    && match post_solutions cast fmt (e_asis c) fresh (CsvRecords strs), e_post c with
+    && match post_solutions cast fmt (e_asis c) st0 (CsvRecords strs), e_post c with
        | Panic, PostPanic => true
        | Ok (S400, _), Post400 => true
        | Ok (S200, st), Post200 =>
